@@ -280,6 +280,32 @@ theorem txn_cluster_redirect_sent_once (p : Bool) (e : SErr) (he : e ≠ .other)
   | crossslot => simp [sendFunc]
 
 open GunYu.ClusterSender in
+/-- transactional cluster target, BLOCKING mode: whatever the error class
+    (redirect, cross-slot, connection error, error reply), a batch is sent at
+    most once — no command of it can execute twice within the run -/
+theorem txn_blocking_sent_once (outs : List (Option SErr)) : (sendFunc ⟨true, false⟩ outs 0).1 ≤ 1 := by
+  cases outs with
+  | nil => simp [sendFunc]
+  | cons o rest =>
+    cases o with
+    | none => simp [sendFunc]
+    | some e => cases e <;> simp [sendFunc]
+
+open GunYu.ClusterSender in
+/-- NOT true for transactional + PIPELINED mode and a non-redirect error returned
+    by Dispatch itself: `sendFunc` dispatches the batch again (listed under
+    `partial`: Dispatch only fails before anything of a one-node batch was
+    submitted, argued from batch2.Dispatch, not proved) -/
+example : sendFunc ⟨true, true⟩ [some .other, none] 0 = (2, .ok) := by decide
+
+open GunYu.ClusterSender in
+/-- errors read by the pipelined receiver close the run without any re-send;
+    a transactional cluster run reports redirects as restart, cross-slot as break -/
+theorem recv_path_reports (p : Bool) : recvFinal ⟨true, p⟩ .redirect = .typology ∧
+    recvFinal ⟨true, p⟩ .crossslot = .brk ∧ ∀ m, recvFinal m .other = .other := by
+  refine ⟨rfl, rfl, fun m => rfl⟩
+
+open GunYu.ClusterSender in
 /-- in every mode a failing batch is sent at most three times before the error
     is reported (each re-send is a repeated suffix, a new segment of C19's log) -/
 theorem sender_sends_at_most_three (m : SMode) (outs : List (Option SErr)) :
